@@ -210,6 +210,23 @@ func init() {
 				if !ok || o.HF[a[2]] {
 					if f, err := strconv.ParseFloat(v, 64); o.HF[a[2]] && err == nil && f == math.Trunc(f) && math.Abs(f) < 1e15 {
 						c = int64(f)
+					} else if o.HF[a[2]] && ok && !((d > 0 && c > maxInt64-d) || (d < 0 && c < minInt64-d)) {
+						// a float-written field beyond 2^53: whether its decimal
+						// form is an integer depends on the float formatting (Redis
+						// prints long doubles with 17 digits, the emulator float64
+						// shortest form). Both outcomes are accepted; the observed
+						// one decides what the field holds afterwards.
+						field := a[2]
+						sum := c + d
+						e := eAlt(eArgErr(), eInt(sum))
+						e.Resolve = func(got Value) {
+							if got.K == KInt {
+								o.H[field] = strconv.FormatInt(sum, 10)
+								delete(o.HF, field)
+								m.modified(s, a[1])
+							}
+						}
+						return e
 					} else {
 						return eArgErr()
 					}
